@@ -32,8 +32,10 @@ BinFails(e) ==
        THEN F(e.outcome = "error" \/ (e.outcome = "value" /\ e.r.t \in {"TimeSpan", "DateTime"}), "arithmetic on a time span / date-time yielded neither an error nor a time value")
   ELSE IF ~Supported(n, a.t) THEN F(e.outcome = "error", "an operator that is undefined for the first operand's type did not yield an error")
   ELSE IF n = "Pow" /\ b.t # a.t /\ b.t \notin {"Null"} /\ ~(b.t \in Numeric) THEN ""   \* which conversion Pow applies to odd operands is left open
+  \* (the type-safe manager must refuse; which further conversions the type-unsafe manager offers is not stated: an error, or a
+  \* value of the first operand's arithmetic)
   ELSE IF n # "Pow" /\ ~ConvOK(e.mgr, b.t, ConvTarget(n, a.t))
-       THEN F(e.outcome = "error", "the second operand cannot be converted to the first operand's type, yet no error")
+       THEN F(e.outcome = "error" \/ (e.mgr = "unsafe" /\ e.outcome = "value" /\ e.r.t = ResultType(n, a.t)), "the second operand cannot be converted to the first operand's type, yet no error")
   ELSE IF n = "Pow" /\ e.mgr = "safe" /\ b.t # a.t THEN ""
   ELSE IF Undefined(n, a, b) THEN F(e.outcome = "error", "an undefined operation (division by zero, negative shift) did not yield an error")
   ELSE IF Unknowable(n, a, b) THEN ""
